@@ -536,6 +536,14 @@ def r14(repo, rep):
                construct="PE = %s" % pe[:150], detail="" if ok_pe else "first output is not len(_in_component_(H, node of largest SCC))/H.order()")
         rep.ob("R14", ok_ar, "from_dir_perc: size = |out-component of a largest SCC| / H.order()", func=f, node=rets[0],
                construct="AR = %s" % ar[:150], detail="" if ok_ar else "second output is not len(_out_component_(H, node of largest SCC))/H.order()")
+        # the member of the component from which the in / out components are grown is picked without comparing labels
+        # (node labels need not be orderable: tuples mixed with strings, user objects)
+        rest = (pe + ar).replace(scc2, "SCC").replace(scc, "SCC")
+        ok_u = not any(w in rest for w in ("min(", "max(", "sorted(", ".sort("))
+        rep.ob("R14", ok_u, "from_dir_perc: the start node is any member of the largest SCC, chosen without ordering the labels", func=f,
+               node=rets[0], construct="start node in %s" % rest[:120],
+               detail="" if ok_u else "the start node is chosen by min / max / sorted over node labels: labels that are not mutually "
+               "orderable make every estimate_*_SIR_prob_size front end raise TypeError")
         # SCC searched in the whole graph
         sdef = [v for v in env.values() if "strongly_connected_components" in _k(v)]
         ok_s = len(sdef) == 1 and _k(sdef[0]) in (scc, scc2)
@@ -559,10 +567,20 @@ def r14(repo, rep):
             if isinstance(num, ast.Call) and _k(num.func) == "float":
                 num = num.args[0]
             num = env.get(_k(num), num)
-            ok = isinstance(num, ast.Call) and _k(num.func) == "max" and isinstance(num.args[0], (ast.GeneratorExp, ast.ListComp)) \
-                and _k(num.args[0].elt) == "len(%s)" % _k(num.args[0].generators[0].target)
+            it = None
+            if isinstance(num, ast.Call) and _k(num.func) == "len" and len(num.args) == 1 and isinstance(num.args[0], ast.Call) \
+                    and _k(num.args[0].func) == "max" and len(num.args[0].args) == 1 \
+                    and [(k.arg, _k(k.value)) for k in num.args[0].keywords] == [("key", "len")]:
+                # len(max(components, key=len)): the size of a largest component, the same number
+                it = num.args[0].args[0]
+                it = env.get(_k(it), it)
+                ok = True
+            else:
+                ok = isinstance(num, ast.Call) and _k(num.func) == "max" and isinstance(num.args[0], (ast.GeneratorExp, ast.ListComp)) \
+                    and _k(num.args[0].elt) == "len(%s)" % _k(num.args[0].generators[0].target)
             if ok:
-                it = num.args[0].generators[0].iter
+                it = it if it is not None else num.args[0].generators[0].iter
+                it = env.get(_k(it), it) if isinstance(it, ast.Name) else it
                 ok = isinstance(it, ast.Call) and _k(it.func) == "nx.connected_components"
                 if ok:
                     h = env.get(_k(it.args[0]), it.args[0])
@@ -675,6 +693,15 @@ def r15(repo, rep):
                 pk_ok = env.get(pk) in ("np.array([%s.get(k,0)forkin%s])" % (f.params[0], kname),)
                 if parsed is not None:
                     form = (sorted(parsed[0]), parsed[1], kname)
+                # a derivative raises x to ks - 1 / ks - 2, negative for the smallest degrees: an INTEGER degree grid makes
+                # psi'(1) fail ("integers to negative integer powers") where the float grid gives 0 * 1.0 ** -1
+                int_grid = (env.get(kname) or "").startswith("np.arange(") and "float" not in (env.get(kname) or "") \
+                    and "." not in (env.get(kname) or "").replace("np.arange", "")
+                neg = parsed is not None and parsed[1] != 0
+                rep.ob("R15", not (int_grid and neg), "%s: the degree grid is a float array where negative exponents occur" % name, func=f,
+                       node=rets[0], construct="%s grid %s, exponent offset %s" % (name, env.get(kname), parsed[1] if parsed else None),
+                       detail="" if not (int_grid and neg) else "`%s` is an integer array: %s(1) (an integer argument, as the package itself "
+                       "passes) raises instead of returning the derivative" % (env.get(kname), name))
                 rep.ob("R15", sup_ok and pk_ok, "%s: probabilities of every degree 0..maxk, in that order" % name, func=f, node=rets[0],
                        construct="%s support %s=%s, %s=%s" % (name, kname, env.get(kname), pk, env.get(pk)),
                        detail="" if (sup_ok and pk_ok) else "support or probability array changed (a dropped degree changes psi(1) or a derivative)")
